@@ -209,8 +209,17 @@ func apiLaws(r *core.Run, cat []*g1lib.Spec) {
 		local := map[string]struct{}{}
 		var calls, acc, rej, idem int64
 		evals := 0
-		for n := 0; n < 12; n++ {
-			rw := g1lib.Gen(s, rnd)
+		var battery []g1lib.Raw
+		if j.k == 0 {
+			battery = boundaryBattery(s)
+		}
+		for n := 0; n < 12+len(battery); n++ {
+			var rw g1lib.Raw
+			if n < 12 {
+				rw = g1lib.Gen(s, rnd)
+			} else {
+				rw = battery[n-12]
+			}
 			if ex := excluded(s, rw); ex != "" {
 				r.Count("excluded-domain."+ex, 1)
 				continue
@@ -286,6 +295,43 @@ func apiLaws(r *core.Run, cat []*g1lib.Spec) {
 			r.Distinct(k)
 		}
 	})
+}
+
+// boundaryBattery: the exact edges of a DECIMAL(p,s) (largest value, first value beyond it, both signs, as text and
+// as decimal), run once per type in every stream so that the edge does not depend on the draw.
+func boundaryBattery(s *g1lib.Spec) []g1lib.Raw {
+	if s.Kind != "decimal" {
+		return nil
+	}
+	var out []g1lib.Raw
+	ip := s.Prec - s.Scale
+	maxTxt := strings.Repeat("9", ip)
+	if maxTxt == "" {
+		maxTxt = "0"
+	}
+	if s.Scale > 0 {
+		maxTxt += "." + strings.Repeat("9", s.Scale)
+	}
+	beyond := "1" + strings.Repeat("0", ip)
+	for _, sign := range []string{"", "-"} {
+		for _, repr := range []string{"string", "decimal"} {
+			mk := func(txt, class string, accept int) g1lib.Raw {
+				d, _, _ := apd.NewFromString(txt)
+				rw := g1lib.Raw{Repr: repr, Class: class, Accept: accept, Lit: txt}
+				if repr == "string" {
+					rw.V, rw.Lit = txt, g1lib.Quote(txt)
+				} else {
+					rw.V = d
+				}
+				if accept > 0 {
+					rw.Want, rw.Exact = d, true
+				}
+				return rw
+			}
+			out = append(out, mk(sign+maxTxt, "max-digits", +1), mk(sign+beyond, "too-many-integer-digits", -1))
+		}
+	}
+	return out
 }
 
 // ---- reference clamp for INSERT IGNORE ------------------------------------------------------------------
